@@ -5,13 +5,14 @@ import vrt_runner
 
 EXTRACT = os.path.join(COQ, "_extract")
 ML_BASE = ["BinNums", "Datatypes", "PeanoNat", "BinPos", "BinNat", "BinInt", "List", "CSem", "Consts", "Sites"]
-REPLAYERS = {"mu_replay": ["MuModel", "MuReplay"], "sem_replay": ["SemModel", "SemReplay"]}
+REPLAYERS = {"mu_replay": ["MuModel", "MuReplay"], "sem_replay": ["SemModel", "SemReplay"],
+             "once_replay": ["OnceModel", "OnceReplay", "rcommon"]}
 
 
 def build_replayer(name="mu_replay"):
     """Extract the models (as regenerated for this tree) and compile replay/<name>.ml.  Returns (exe, err)."""
     with Lock("coq"):
-        b = coq_build(["Model/MuReplay.vo", "Model/SemReplay.vo"])
+        b = coq_build(["Model/MuReplay.vo", "Model/SemReplay.vo", "Model/OnceReplay.vo"])
         if not b["ok"]:
             return None, "model does not build: " + b["log"][-800:]
         if os.path.isdir(EXTRACT):
@@ -22,9 +23,10 @@ def build_replayer(name="mu_replay"):
         if rc != 0:
             return None, "extraction failed: " + (err or out)[-800:]
         shutil.copy(os.path.join(VERIF, "replay", name + ".ml"), EXTRACT)
+        shutil.copy(os.path.join(VERIF, "replay", "rcommon.ml"), EXTRACT)
         files = []
         for m in ML_BASE + REPLAYERS[name]:
-            files += [m + ".mli", m + ".ml"]
+            files += [m + ".ml"] if m == "rcommon" else [m + ".mli", m + ".ml"]
         rc, out, err = sh(["ocamlfind", "ocamlopt", "-package", "str", "-linkpkg", "-w", "-a"] + files +
                           [name + ".ml", "-o", name], cwd=EXTRACT, timeout=300)
         if rc != 0:
